@@ -157,10 +157,7 @@ class _Extra(ast.NodeTransformer):
         elif isinstance(node.slice, ast.Tuple):
             for e in node.slice.elts:
                 fix(e)
-        # X.shape[0] -> len(X)
-        if isinstance(node.value, ast.Attribute) and node.value.attr == 'shape' and isinstance(node.slice, ast.Constant) \
-                and node.slice.value == 0 and isinstance(node.ctx, ast.Load):
-            return ast.copy_location(ast.Call(func=ast.Name(id='len', ctx=ast.Load()), args=[node.value.value], keywords=[]), node)
+        # (X.shape[0] is NOT rewritten to len(X): len() raises for scipy sparse matrices - finding F11)
         return node
 
     def visit_ListComp(self, node):
@@ -329,9 +326,14 @@ def _mutated_names(stmts):
             if isinstance(n, ast.Call):
                 for k in n.keywords:
                     if k.arg == 'out':
-                        for tt in ast.walk(k.value):
-                            if isinstance(tt, ast.Name):
-                                out.append((idx, tt.id))
+                        # the object written is the root of the out= expression
+                        # (a fresh np.zeros(...) passed as out= mutates nothing nameable)
+                        vals = k.value.elts if isinstance(k.value, (ast.Tuple, ast.List)) else [k.value]
+                        for b in vals:
+                            while isinstance(b, (ast.Attribute, ast.Subscript)):
+                                b = b.value
+                            if isinstance(b, ast.Name):
+                                out.append((idx, b.id))
     return out
 
 
